@@ -53,7 +53,7 @@ func (np *nameProv) ok(v ssa.Value, use ssa.Instruction, depth int) (bool, strin
 			}
 			cl, ok := strip(bo.X).(*ssa.Call)
 			isNil := (bo.Op == token.EQL) == fc.Pol
-			return ok && isNil && strings.HasSuffix(calleeName(&cl.Call), "telemetrygodev.validate") && strip(cl.Call.Args[0]) == strip(b)
+			return ok && isNil && strings.HasSuffix(calleeName(&cl.Call), "telemetrygodev.validate") && strip(argsOf(cl)[0]) == strip(b)
 		}) {
 			return true, ""
 		}
@@ -82,7 +82,7 @@ func (np *nameProv) ok(v ssa.Value, use ssa.Instruction, depth int) (bool, strin
 				return true, ""
 			}
 			if n == "strings.Cut" {
-				return np.ok(cl.Call.Args[0], use, depth+1)
+				return np.ok(argsOf(cl)[0], use, depth+1)
 			}
 		}
 	case *ssa.Call:
@@ -91,11 +91,11 @@ func (np *nameProv) ok(v ssa.Value, use ssa.Instruction, depth int) (bool, strin
 		case n == "(time.Time).Format":
 			return true, ""
 		case n == "fmt.Sprintf":
-			f, isC := constOf(x.Call.Args[0])
+			f, isC := constOf(argsOf(x)[0])
 			if !isC {
 				return false, "non-constant format"
 			}
-			if sl, ok := x.Call.Args[1].(*ssa.Slice); ok {
+			if sl, ok := argsOf(x)[1].(*ssa.Slice); ok {
 				if el, ok := varargElems(sl); ok {
 					verbs := formatVerbs(f)
 					for i, e := range el {
@@ -118,7 +118,7 @@ func (np *nameProv) ok(v ssa.Value, use ssa.Instruction, depth int) (bool, strin
 			}
 			return false, "cannot resolve Sprintf arguments"
 		case n == "strings.TrimSuffix" || n == "strings.TrimPrefix" || n == "strings.TrimSpace":
-			return np.ok(x.Call.Args[0], use, depth+1)
+			return np.ok(argsOf(x)[0], use, depth+1)
 		}
 		if f := x.Call.StaticCallee(); f != nil && f.Blocks != nil && strings.HasPrefix(fname(f), "godev/") {
 			// a repo function returning the name: every returned value must be ok
@@ -144,7 +144,7 @@ func (np *nameProv) ok(v ssa.Value, use ssa.Instruction, depth int) (bool, strin
 			return false, "parameter " + x.Name() + " of " + fname(fn) + " with no resolved caller"
 		}
 		for _, cs := range callers {
-			args := cs.Common().Args
+			args := argsOf(cs)
 			if idx >= len(args) {
 				return false, "caller arity"
 			}
@@ -244,8 +244,8 @@ func validatedDate(v ssa.Value, use ssa.Instruction) bool {
 		if !ok || calleeName(&pc.Call) != "time.Parse" {
 			return false
 		}
-		k, _ := constOf(pc.Call.Args[0])
-		same := strip(pc.Call.Args[1]) == v || describe(pc.Call.Args[1]) == describe(v)
+		k, _ := constOf(argsOf(pc)[0])
+		same := strip(argsOf(pc)[1]) == v || describe(argsOf(pc)[1]) == describe(v)
 		isNil := (bo.Op == token.EQL) == f.Pol
 		return k == "2006-01-02" && same && isNil
 	})
@@ -271,7 +271,7 @@ func runC18(c *Ctx) {
 			}
 			n++
 			np := &nameProv{m: gd, seen: map[ssa.Value]bool{}}
-			ok, why := np.ok(cs.Common().Args[0], cs, 0)
+			ok, why := np.ok(argsOf(cs)[0], cs, 0)
 			detail := why
 			if len(np.tabled) > 0 {
 				detail = "tabled: " + np.tabled[0]
@@ -287,7 +287,7 @@ func runC18(c *Ctx) {
 			if i := strings.LastIndex(bucket, "."); i >= 0 {
 				bucket = bucket[i+1:]
 			}
-			r.Check("C18.names-confined", fname(fn)+"/Object("+shortDesc(stripNames(describe(cs.Common().Args[0])))+") on "+bucket, gd.Pos(cs.Pos()), ok,
+			r.Check("C18.names-confined", fname(fn)+"/Object("+shortDesc(stripNames(describe(argsOf(cs)[0])))+") on "+bucket, gd.Pos(cs.Pos()), ok,
 				"object names must be built from constants, formatted/validated dates, floats or listed names: "+detail)
 		}
 	}
@@ -297,7 +297,7 @@ func runC18(c *Ctx) {
 	nfo := gd.Func("internal/storage", "NewFSObject")
 	okJoin := false
 	for _, cs := range callsIn(nfo, "path/filepath.Join") {
-		d := describe(cs.Common().Args[0])
+		d := describe(argsOf(cs)[0])
 		okJoin = d == "[param:b.dir, param:b.bucket, path/filepath.FromSlash(param:name)]"
 		r.Check("C18.names-confined", "NewFSObject/path = Join(dir, bucket, FromSlash(name))", gd.Pos(cs.Pos()), okJoin, "got "+d)
 	}
@@ -326,10 +326,10 @@ func runC18(c *Ctx) {
 	}
 	r.Check("C18.slash-agreement", "Objects/walks the bucket directory", gd.Pos(objs.Pos()), walk != nil, "fs.WalkDir expected")
 	if walk != nil {
-		root := describe(walk.Call.Args[0])
-		r.Check("C18.walk-root", "Objects/walk root is Join(dir, bucket)", gd.Pos(walk.Pos()), root == "os.DirFS(path/filepath.Join([param:b.dir, param:b.bucket]))" && describe(walk.Call.Args[1]) == `"."`,
+		root := describe(argsOf(walk)[0])
+		r.Check("C18.walk-root", "Objects/walk root is Join(dir, bucket)", gd.Pos(walk.Pos()), root == "os.DirFS(path/filepath.Join([param:b.dir, param:b.bucket]))" && describe(argsOf(walk)[1]) == `"."`,
 			"the listing must walk exactly the directory objects are written under; got "+root)
-		cb := funcValue(walk.Call.Args[2])
+		cb := funcValue(argsOf(walk)[2])
 		if cb == nil {
 			r.Check("C18.slash-agreement", "Objects/callback", gd.Pos(walk.Pos()), false, "cannot resolve the walk callback")
 		} else {
@@ -369,7 +369,7 @@ func runC18(c *Ctx) {
 	nb := gd.Func("internal/storage", "NewFSBucket")
 	okRoot := false
 	for _, cs := range callsIn(nb, "os.MkdirAll") {
-		okRoot = describe(cs.Common().Args[0]) == "path/filepath.Join([param:dir, param:bucket])"
+		okRoot = describe(argsOf(cs)[0]) == "path/filepath.Join([param:dir, param:bucket])"
 	}
 	r.Check("C18.walk-root", "NewFSBucket/creates Join(dir, bucket)", gd.Pos(nb.Pos()), okRoot, "the bucket directory is dir/bucket")
 
@@ -399,15 +399,15 @@ func c18Writer(c *Ctx, gd *Module, rule string) {
 	wr := gd.Func("internal/storage", "FSObject.NewWriter")
 	okTrunc := false
 	for _, cs := range callsIn(wr, "os.Create") {
-		okTrunc = describe(cs.Common().Args[0]) == "param:o.filename"
+		okTrunc = describe(argsOf(cs)[0]) == "param:o.filename"
 	}
 	for _, cs := range callsIn(wr, "os.OpenFile") {
-		okTrunc = describe(cs.Common().Args[0]) == "param:o.filename" && gd.openFlagsHave(cs.Common(), "O_CREATE", "O_TRUNC", "O_WRONLY") || gd.openFlagsHave(cs.Common(), "O_CREATE", "O_TRUNC", "O_RDWR")
+		okTrunc = describe(argsOf(cs)[0]) == "param:o.filename" && gd.openFlagsHave(cs.Common(), "O_CREATE", "O_TRUNC", "O_WRONLY") || gd.openFlagsHave(cs.Common(), "O_CREATE", "O_TRUNC", "O_RDWR")
 	}
 	r.Check(rule, "godev/internal/storage.(*FSObject).NewWriter", gd.Pos(wr.Pos()), okTrunc, "writing an object must replace its content: os.Create or OpenFile with O_CREATE|O_TRUNC (without O_TRUNC a shorter overwrite keeps a stale tail)")
 	okMk := false
 	for _, cs := range callsIn(wr, "os.MkdirAll") {
-		okMk = describe(cs.Common().Args[0]) == "path/filepath.Dir(param:o.filename)"
+		okMk = describe(argsOf(cs)[0]) == "path/filepath.Dir(param:o.filename)"
 	}
 	r.Check(rule, "NewWriter/creates parent directories", gd.Pos(wr.Pos()), okMk, "nested object names need their directories")
 }
